@@ -319,8 +319,16 @@ func (p c09) runRedis(t *testing.T, sc *C09Scenario) harness.Outcome {
 					served++
 				}
 			}
+			// a client that connected so late (a starving schedule) that its request was never sent cannot have been
+			// served yet: the clause is only judged when every arrival has put its request on the wire
+			unsent := 0
+			for _, c := range w.env.Clients {
+				if c.Connected && len(c.Sent) == 0 {
+					unsent++
+				}
+			}
 			// clients never close in this class, so exactly min(limit, arrivals) connections are served
-			if served != want {
+			if unsent == 0 && served != want {
 				return &simrt.Violation{Clause: "connections-under-limit-served", Detail: fmt.Sprintf("%d of %d arrivals were served, the limit is %d and no served connection ever closed", served, len(rs.Conns), rs.Env.ConnLimit)}
 			}
 		}
